@@ -817,3 +817,31 @@ Definition capture_witness : fcprog :=
           (FCall "f" [FLit 5; FCtor "Cons" [FLit 7; FCtor "Nil" [] (Some ty_list_i64)] (Some ty_list_i64)] (Some FI64))
           (FLit 0) (Some FI64))].
 
+
+(* ---------- the first-order integer fragment of the theorem fun2core_correct_partial ----------
+   [iexp]: literals, i64 variables, operators, parentheses.  [islf]: non-codata `let` of an
+   expression, print, exit, conditionals on expressions, parentheses, expressions. *)
+Fixpoint iexp (t : fterm) : bool :=
+  match t with
+  | FLit _ => true
+  | FVar _ (Some FI64) _ => true
+  | FOp a _ b => iexp a && iexp b
+  | FParen t' => iexp t'
+  | _ => false
+  end.
+Fixpoint islf (t : fterm) : bool :=
+  match t with
+  | FLet _ FI64 bound body _ => iexp bound && islf body
+  | FPrint _ a next _ => iexp a && islf next
+  | FExit a (Some _) => iexp a
+  | FIfC _ a b t1 t2 _ =>
+      iexp a && (match b with Some b' => iexp b' | None => true end) && islf t1 && islf t2
+  | FParen t' => islf t'
+  | _ => iexp t
+  end.
+
+Definition main_in_fragment (p : fcprog) : bool :=
+  match find (fun d => String.eqb (fdname d) "main") (fcpdefs p) with
+  | Some d => islf (fdbody d) && nodup_str (map fdname (fcpdefs p))
+  | None => false
+  end.
